@@ -54,7 +54,7 @@ def start_guard(ctx):
                       f"start site ({what}) is reachable without passing the true edge of the readiness predicate")
 
 
-@rule("C01.READY-PRED", ["C01"], """the readiness predicate returns true only on paths on which: to_execute was read true,
+@rule("C01.READY-PRED", ["C01", "C11"], """the readiness predicate returns true only on paths on which: to_execute was read true,
       requesters[kind] is non-empty, unavailable_dependencies[Build] is empty and unavailable_dependencies[Service] is empty""", "K2", floor=4)
 def ready_pred(ctx):
     r = ctx.r
@@ -104,7 +104,7 @@ def ready_pred(ctx):
                             ok = True
                 if not ok:
                     missing.append(p)
-            ctx.check(not missing, f"{short(b.name)}/{nm}", [b.loc()],
+            ctx.check(not missing, f"{short(b.name)}/{nm}", [b.loc()], props=(["C01", "C11"] if "Service" in nm else ["C01"]), found=
                       f"{len(missing)} of {len(true_paths)} true-returning path(s) do not test `{nm}`; e.g. " + (" ".join(repr(e) for e in missing[0][:12]) if missing else ""),
                       detail=f"{len(paths)} paths, {len(true_paths)} can return true")
 
